@@ -23,8 +23,8 @@ impl Engine for CoreEngine {
         &["C04", "C05", "C06", "C07", "C08", "C20"]
     }
 
-    fn generate(&self, rng: &mut Rng, property: &str, _tier: Tier) -> Self::Scn {
-        scenario::generate(rng, property)
+    fn generate(&self, rng: &mut Rng, property: &str, tier: Tier) -> Self::Scn {
+        scenario::generate(rng, property, tier == Tier::Thorough)
     }
 
     fn execute(&self, scn: &Self::Scn, property: &str) -> RunOutcome {
